@@ -119,6 +119,7 @@ func c18RunFlight(m *vk.M, idx int, sc c18FScn) bool {
 		nextID int64
 		wg     sync.WaitGroup
 		start  = make(chan struct{})
+		gate   = c18NewGate(int32(len(sc.Clients)))
 	)
 	recs := make([][]c18FRec, len(sc.Clients))
 	for ci := range sc.Clients {
@@ -127,6 +128,7 @@ func c18RunFlight(m *vk.M, idx int, sc c18FScn) bool {
 		go func(ci int) {
 			defer wg.Done()
 			<-start
+			gate.wait()
 			for j, c := range sc.Clients[ci] {
 				c, j := c, j
 				key := fmt.Sprintf("k%d", c.K)
@@ -400,6 +402,7 @@ func c18RunRM(m *vk.M, idx int, sc c18RMScn) bool {
 		nextID  int64
 		wg      sync.WaitGroup
 		start   = make(chan struct{})
+		gate    = c18NewGate(int32(len(sc.Clients)))
 	)
 	var sets []*c18Closer
 	for i := 0; i < sc.Sets; i++ {
@@ -420,6 +423,7 @@ func c18RunRM(m *vk.M, idx int, sc c18RMScn) bool {
 		go func(ci int) {
 			defer wg.Done()
 			<-start
+			gate.wait()
 			for j, c := range sc.Clients[ci] {
 				c := c
 				c18Delay(c.Pre)
@@ -539,6 +543,7 @@ type c18MRes struct {
 
 func c18GenMR(r interface{ Intn(int) int }) c18MRScn {
 	sc := c18MRScn{GenDelay: c18RandDelay(r)}
+	tight := r.Intn(2) == 0
 	nclients := 2 + r.Intn(7)
 	if r.Intn(8) == 0 {
 		nclients = 16 + r.Intn(17)
@@ -556,7 +561,7 @@ func c18GenMR(r interface{ Intn(int) int }) c18MRScn {
 			default:
 				op = 2
 			}
-			ops = append(ops, c18MROp{Op: op, Pre: c18RandDelay(r)})
+			ops = append(ops, c18MROp{Op: op, Pre: c18PreDelay(r, tight)})
 		}
 		sc.Clients = append(sc.Clients, ops)
 	}
@@ -574,6 +579,7 @@ func c18RunMR(m *vk.M, idx int, sc c18MRScn) bool {
 		overlap  int32
 		wg       sync.WaitGroup
 		start    = make(chan struct{})
+		gate     = c18NewGate(int32(len(sc.Clients)))
 		foreign  = &c18MRes{id: -7}
 		equalCnt int64
 	)
@@ -608,6 +614,7 @@ func c18RunMR(m *vk.M, idx int, sc c18MRScn) bool {
 		go func(ci int) {
 			defer wg.Done()
 			<-start
+			gate.wait()
 			var last *c18MRes
 			for j, op := range sc.Clients[ci] {
 				c18Delay(op.Pre)
